@@ -18,8 +18,8 @@ THRESH = (1, 3, 5)
 def extract(ctx, rule='C17-R1'):
     p = ctx.project
     f = p.func(ANCHOR, rule)
-    ex = Executor(p)
-    summ = ex.run(f)
+    from sa.rules.tables import summary
+    ex, summ = summary(ctx, f)      # private helpers of icao.py expanded at their call sites
     ctx.saw(f)
     params = f.params
     if not params:
